@@ -457,3 +457,386 @@ Proof.
   apply respond_ok in Eresp. simpl in Eresp. destruct Eresp as (-> & _ & ->).
   rewrite !seqb_refl. reflexivity.
 Qed.
+
+(* ========================================================================= *)
+(* C06: what an emitted response contains                                      *)
+
+Lemma signing_context_ok cfg ctx :
+  signing_context cfg = Ok ctx ->
+  ctx = (signer_key cfg, effective_method cfg) /\ mem_str (effective_method cfg) rsa_methods = true.
+Proof.
+  unfold signing_context. destruct (mem_str (effective_method cfg) rsa_methods) eqn:E; [|discriminate].
+  intro H. injection H as <-. auto.
+Qed.
+
+Lemma make_assertion_el_inv cfg cp rt a rnd ael :
+  make_assertion_el cfg cp rt a rnd = Ok ael ->
+  exists ctx, signing_context cfg = Ok ctx /\
+    ((enc_decision cp (kds (rt_desc rt)) = Plain /\ ael = APlain a (sign ctx (a_id a) a)) \/
+     (exists id, enc_decision cp (kds (rt_desc rt)) = EncryptTo id /\
+                 ael = AEnc (fst (encrypt_assertion id (rnd_wrapn rnd) (rnd_enc rnd) (a, sign ctx (a_id a) a))))).
+Proof.
+  unfold make_assertion_el. destruct (signing_context cfg) as [ctx| |]; cbn [bind]; try discriminate.
+  intro H. exists ctx. split; [reflexivity|].
+  destruct (enc_decision cp (kds (rt_desc rt))) as [|id| |]; try discriminate; injection H as <-.
+  - left. auto.
+  - right. exists id. auto.
+Qed.
+
+Definition response_of (cfg : idpcfg) (rt : routing) (rq : authnreq) (now : Z) (ael : assertion_el)
+           (rand : string) (ctx : Z * string) : response :=
+  let id := fst (draw_id rand) in
+  let body := {| rs_id := id; rs_in_response_to := rq_id rq; rs_issue_instant := now;
+                 rs_destination := ep_location (rt_ep rt); rs_issuer := idp_entity cfg;
+                 rs_issuer_format := fmt_entity; rs_status := status_success; rs_assertion := ael |} in
+  {| rs_body := body; rs_sig := sign ctx id body |}.
+
+Lemma make_response_inv cfg rt rq now ael rand resp :
+  make_response cfg rt rq now ael rand = Ok resp ->
+  exists ctx, signing_context cfg = Ok ctx /\ resp = response_of cfg rt rq now ael rand ctx.
+Proof.
+  unfold make_response, response_of. destruct (draw_id rand) as [id r] eqn:E.
+  destruct (signing_context cfg) as [ctx| |]; cbn [bind]; try discriminate.
+  intro H. injection H as <-. exists ctx. split; reflexivity.
+Qed.
+
+(* the structure of every successful [respond] *)
+Lemma respond_inv cfg cp rt rq s now tnow addr relay rnd action resp rl :
+  respond cfg cp rt rq s now tnow addr relay rnd = Ok (action, resp, rl) ->
+  let a := fst (make_assertion cfg rt rq s now tnow addr (rnd_saml rnd)) in
+  let rand' := snd (make_assertion cfg rt rq s now tnow addr (rnd_saml rnd)) in
+  let ctx := (signer_key cfg, effective_method cfg) in
+  exists ael,
+    mem_str (effective_method cfg) rsa_methods = true /\
+    make_assertion_el cfg cp rt a rnd = Ok ael /\
+    resp = response_of cfg rt rq now ael rand' ctx /\
+    inner_assertion resp = (a, sign ctx (a_id a) a) /\
+    action = ep_location (rt_ep rt) /\ rl = relay /\ ep_binding (rt_ep rt) = post_binding.
+Proof.
+  intro H. pose proof (respond_ok _ _ _ _ _ _ _ _ _ _ _ _ _ H) as (Ha & Hr & Hb).
+  unfold respond in H.
+  destruct (make_assertion cfg rt rq s now tnow addr (rnd_saml rnd)) as [a rand'] eqn:Ema. cbn [fst snd].
+  destruct (make_assertion_el cfg cp rt a rnd) as [ael| |] eqn:Eel; cbn [bind] in H; try discriminate.
+  destruct (make_response cfg rt rq now ael rand') as [resp'| |] eqn:Er; cbn [bind] in H; try discriminate.
+  apply post_form_ok in H. destruct H as [H _]. injection H as _ <- _.
+  apply make_response_inv in Er. destruct Er as (ctx & Hc & ->).
+  apply signing_context_ok in Hc. destruct Hc as [-> Hm].
+  exists ael. repeat split; auto.
+  apply make_assertion_el_inv in Eel. destruct Eel as (ctx' & Hc' & Hcase).
+  apply signing_context_ok in Hc'. destruct Hc' as [-> _].
+  unfold inner_assertion, response_of. cbn [rs_body rs_assertion].
+  destruct Hcase as [[_ ->] | (id & _ & ->)]; reflexivity.
+Qed.
+
+Lemma make_assertion_fields cfg rt rq s now tnow addr rand :
+  let a := fst (make_assertion cfg rt rq s now tnow addr rand) in
+  a_id a = fst (draw_id rand) /\ a_issue_instant a = tnow /\ a_issuer a = idp_entity cfg /\
+  a_issuer_format a = fmt_entity /\
+  ni_value (a_nameid a) = ss_nameid s /\ ni_name_qualifier (a_nameid a) = idp_entity cfg /\
+  ni_sp_name_qualifier (a_nameid a) = md_entity (rt_md rt) /\
+  a_conf_method a = cm_bearer /\ a_conf_address a = addr /\ a_conf_in_response_to a = rq_id rq /\
+  a_conf_noa a = now + max_issue_delay cfg /\ a_conf_recipient a = ep_location (rt_ep rt) /\
+  (a_not_before a, a_noa a) = cond_window cfg now (rq_issue rq) /\
+  a_audiences a = [md_entity (rt_md rt)] /\ a_authn_instant a = ss_create s /\
+  a_session_index a = ss_index s /\ a_locality a = addr /\
+  a_attributes a = session_attributes (choose_attr_service (attr_services (rt_desc rt))) s.
+Proof.
+  unfold make_assertion. destruct (draw_id rand) as [id r]. destruct (cond_window cfg now (rq_issue rq)) as [nb noa].
+  cbn. repeat split; reflexivity.
+Qed.
+
+Theorem respond_scoping cfg cp rt rq s now tnow addr relay rnd action resp rl :
+  respond cfg cp rt rq s now tnow addr relay rnd = Ok (action, resp, rl) ->
+  let a := fst (inner_assertion resp) in
+  ep_binding (rt_ep rt) = post_binding /\
+  action = ep_location (rt_ep rt) /\ rs_destination (rs_body resp) = ep_location (rt_ep rt) /\
+  a_conf_recipient a = ep_location (rt_ep rt) /\
+  a_audiences a = [md_entity (rt_md rt)] /\ ni_sp_name_qualifier (a_nameid a) = md_entity (rt_md rt) /\
+  rs_in_response_to (rs_body resp) = rq_id rq /\ a_conf_in_response_to a = rq_id rq /\
+  rs_issuer (rs_body resp) = idp_entity cfg /\ a_issuer a = idp_entity cfg /\
+  a_conf_method a = cm_bearer /\ rs_status (rs_body resp) = status_success /\ rl = relay.
+Proof.
+  intro H. apply respond_inv in H. cbv zeta in H.
+  destruct H as (ael & _ & _ & -> & Hin & -> & -> & Hb). cbv zeta. rewrite Hin. cbn [fst].
+  pose proof (make_assertion_fields cfg rt rq s now tnow addr (rnd_saml rnd)) as F. cbv zeta in F.
+  unfold response_of. cbn [rs_body rs_destination rs_in_response_to rs_issuer rs_status].
+  intuition.
+Qed.
+
+Theorem respond_times cfg cp rt rq s now tnow addr relay rnd action resp rl :
+  respond cfg cp rt rq s now tnow addr relay rnd = Ok (action, resp, rl) ->
+  let a := fst (inner_assertion resp) in
+  now - max_clock_skew cfg <= a_not_before a /\
+  (now - max_clock_skew cfg < rq_issue rq ->
+     a_not_before a = rq_issue rq /\ a_noa a = rq_issue rq + max_issue_delay cfg) /\
+  (rq_issue rq <= now - max_clock_skew cfg ->
+     a_not_before a = now - max_clock_skew cfg /\ a_noa a = now + max_issue_delay cfg) /\
+  a_conf_noa a = now + max_issue_delay cfg /\
+  rs_issue_instant (rs_body resp) = now /\ a_issue_instant a = tnow.
+Proof.
+  intro H. apply respond_inv in H. cbv zeta in H.
+  destruct H as (ael & _ & _ & -> & Hin & _). cbv zeta. rewrite Hin. cbn [fst].
+  pose proof (make_assertion_fields cfg rt rq s now tnow addr (rnd_saml rnd)) as F. cbv zeta in F.
+  destruct F as (_ & Ft & _ & _ & _ & _ & _ & _ & _ & _ & Fc & _ & Fw & _).
+  unfold cond_window in Fw.
+  destruct (now - max_clock_skew cfg <? rq_issue rq) eqn:E; injection Fw as Fnb Fnoa;
+    unfold response_of; cbn [rs_body rs_issue_instant]; repeat split; try assumption; try lia.
+Qed.
+
+(* attribute values come from the session *)
+Lemma mem_str_In x l : mem_str x l = true <-> In x l.
+Proof.
+  induction l as [|y r IH]; simpl; [split; [discriminate | tauto]|].
+  rewrite orb_true_iff, seqb_iff, IH. split; intros [H|H]; auto.
+Qed.
+
+Definition values_from (s : session) (l : list attribute) : Prop :=
+  forall a v, In a l -> In v (at_values a) -> In (av_value v) (session_values s).
+
+Lemma values_from_app s l1 l2 : values_from s l1 -> values_from s l2 -> values_from s (l1 ++ l2).
+Proof. intros H1 H2 a v Ha. apply in_app_or in Ha. destruct Ha; eauto. Qed.
+
+Lemma values_from_opt s c a :
+  (forall v, In v (at_values a) -> In (av_value v) (session_values s)) -> values_from s (opt_attr c a).
+Proof. intros H a' v Ha. destruct c; simpl in Ha; [destruct Ha as [<-|[]]; auto | contradiction]. Qed.
+
+Lemma in_session_values_head s x :
+  In x [ss_email s; ss_common_name s; ss_given_name s; ss_surname s; ss_user_name s; ss_eppn s;
+        ss_scoped_aff s; ss_subject_id s] -> In x (session_values s).
+Proof. intro H. unfold session_values. apply in_or_app. left. exact H. Qed.
+
+Lemma requested_value_in s n v : requested_value s n = Some v -> In v (session_values s).
+Proof.
+  unfold requested_value. intro H. apply in_session_values_head.
+  repeat match type of H with (if ?b then _ else _) = _ => destruct b end;
+    try discriminate; injection H as <-; simpl; tauto.
+Qed.
+
+Lemma requested_attrs_from s ras : values_from s (requested_attrs s ras).
+Proof.
+  induction ras as [|ra r IH]; simpl; [intros a v []|].
+  apply values_from_app; [|exact IH].
+  destruct (seqb (ra_format ra) fmt_basic || seqb (ra_format ra) fmt_unspecified); [|intros a v []].
+  destruct (requested_value s (strip_non_alnum (ra_name ra))) as [x|] eqn:E; [|intros a v []].
+  intros a v [<-|[]] Hv. simpl in Hv. destruct Hv as [<-|[]]. simpl. eapply requested_value_in; eauto.
+Qed.
+
+Lemma session_attributes_from svc s : values_from s (session_attributes svc s).
+Proof.
+  unfold session_attributes.
+  repeat apply values_from_app; try apply requested_attrs_from;
+    try (apply values_from_opt; simpl; intros v [<-|[]]; simpl;
+         try (destruct (nonempty (ss_eppn s))); apply in_session_values_head; simpl; tauto).
+  - intros a v Ha Hv. unfold session_values. apply in_or_app. right. apply in_or_app. right.
+    apply in_flat_map. exists a. split; [exact Ha|]. apply in_map. exact Hv.
+  - apply values_from_opt. intros v Hv. cbn [at_values uri_attr] in Hv. apply in_map_iff in Hv. destruct Hv as (g & <- & Hg).
+    cbn [xs_val av_value]. unfold session_values. apply in_or_app. right. apply in_or_app. left. exact Hg.
+Qed.
+
+Lemma session_attributes_custom svc s :
+  exists pre post, session_attributes svc s = pre ++ ss_custom s ++ post.
+Proof.
+  unfold session_attributes.
+  eexists (_ ++ _ ++ _ ++ _ ++ _ ++ _ ++ _ ++ _), _.
+  rewrite <- !app_assoc. reflexivity.
+Qed.
+
+Lemma session_attributes_groups svc s :
+  ss_groups s <> [] ->
+  In (uri_attr "eduPersonAffiliation" "urn:oid:1.3.6.1.4.1.5923.1.1.1.1" (map xs_val (ss_groups s)))
+     (session_attributes svc s).
+Proof.
+  intro H. unfold session_attributes.
+  repeat (apply in_or_app; right). apply in_or_app. left.
+  destruct (ss_groups s); [contradiction|]. simpl. left. reflexivity.
+Qed.
+
+Theorem respond_attrs_from_session cfg cp rt rq s now tnow addr relay rnd action resp rl :
+  respond cfg cp rt rq s now tnow addr relay rnd = Ok (action, resp, rl) ->
+  let a := fst (inner_assertion resp) in
+  ni_value (a_nameid a) = ss_nameid s /\ a_session_index a = ss_index s /\ a_authn_instant a = ss_create s /\
+  values_from s (a_attributes a) /\
+  (exists pre post, a_attributes a = pre ++ ss_custom s ++ post) /\
+  (ss_groups s <> [] ->
+     In (uri_attr "eduPersonAffiliation" "urn:oid:1.3.6.1.4.1.5923.1.1.1.1" (map xs_val (ss_groups s)))
+        (a_attributes a)).
+Proof.
+  intro H. apply respond_inv in H. cbv zeta in H.
+  destruct H as (ael & _ & _ & _ & Hin & _). cbv zeta. rewrite Hin. cbn [fst].
+  pose proof (make_assertion_fields cfg rt rq s now tnow addr (rnd_saml rnd)) as F. cbv zeta in F.
+  destruct F as (_ & _ & _ & _ & Fn & _ & _ & _ & _ & _ & _ & _ & _ & _ & Fa & Fi & _ & Fat).
+  rewrite Fat. repeat split; auto.
+  - apply session_attributes_from.
+  - apply session_attributes_custom.
+  - apply session_attributes_groups.
+Qed.
+
+Theorem respond_both_signed cfg cp rt rq s now tnow addr relay rnd action resp rl :
+  respond cfg cp rt rq s now tnow addr relay rnd = Ok (action, resp, rl) ->
+  let '(a, sa) := inner_assertion resp in
+  let sr := rs_sig resp in
+  sg_signer sr = signer_key cfg /\ sg_method sr = effective_method cfg /\
+  sg_ref sr = "#" +++ rs_id (rs_body resp) /\ sg_over sr = rs_body resp /\
+  sg_signer sa = signer_key cfg /\ sg_method sa = effective_method cfg /\
+  sg_ref sa = "#" +++ a_id a /\ sg_over sa = a /\
+  In (effective_method cfg) rsa_methods /\
+  (forall k, idp_signer cfg = Some k -> signer_key cfg = k) /\
+  (idp_signer cfg = None -> signer_key cfg = idp_key cfg) /\
+  (sig_method cfg = "" -> effective_method cfg = rsa_sha1).
+Proof.
+  intro H. apply respond_inv in H. cbv zeta in H.
+  destruct H as (ael & Hm & _ & -> & Hin & _). rewrite Hin.
+  unfold response_of, sign. cbn. repeat split; auto.
+  - apply mem_str_In. exact Hm.
+  - intros k Hk. unfold signer_key. rewrite Hk. reflexivity.
+  - intro Hk. unfold signer_key. rewrite Hk. reflexivity.
+  - intro Hk. unfold effective_method. rewrite Hk. reflexivity.
+Qed.
+
+(* ---------- the C06 monitor holds of the model's own output ---------- *)
+Lemma list_eqb_refl {A} (eq : A -> A -> bool) (H : forall x, eq x x = true) l : list_eqb eq l l = true.
+Proof. induction l as [|x r IH]; simpl; [reflexivity|]. rewrite H, IH. reflexivity. Qed.
+Lemma attrvalue_eqb_refl a : attrvalue_eqb a a = true.
+Proof. unfold attrvalue_eqb. rewrite !seqb_refl. reflexivity. Qed.
+Lemma attribute_eqb_refl a : attribute_eqb a a = true.
+Proof. unfold attribute_eqb. rewrite !seqb_refl, (list_eqb_refl _ attrvalue_eqb_refl). reflexivity. Qed.
+Lemma nameid_eqb_refl a : nameid_eqb a a = true.
+Proof. unfold nameid_eqb. rewrite !seqb_refl. reflexivity. Qed.
+Lemma assertion_eqb_refl a : assertion_eqb a a = true.
+Proof.
+  unfold assertion_eqb.
+  rewrite !seqb_refl, !Z.eqb_refl, nameid_eqb_refl, (list_eqb_refl _ seqb_refl),
+          (list_eqb_refl _ attribute_eqb_refl). reflexivity.
+Qed.
+Lemma sig_eqb_refl {A} (eq : A -> A -> bool) (H : forall x, eq x x = true) s : sig_eqb eq s s = true.
+Proof. unfold sig_eqb. rewrite Z.eqb_refl, !seqb_refl, H. reflexivity. Qed.
+Lemma ael_eqb_refl x : ael_eqb x x = true.
+Proof.
+  destruct x as [a s|e]; simpl.
+  - rewrite assertion_eqb_refl, (sig_eqb_refl _ assertion_eqb_refl). reflexivity.
+  - unfold encrec_eqb. rewrite Z.eqb_refl, !seqb_refl, assertion_eqb_refl, (sig_eqb_refl _ assertion_eqb_refl). reflexivity.
+Qed.
+Lemma respbody_eqb_refl x : respbody_eqb x x = true.
+Proof. unfold respbody_eqb. rewrite !seqb_refl, Z.eqb_refl, ael_eqb_refl. reflexivity. Qed.
+
+Lemma subseq_b_skip_tail {A} (eq : A -> A -> bool) big :
+  (forall small y, subseq_b eq small big = true -> subseq_b eq small (y :: big) = true) /\
+  (forall x s', subseq_b eq (x :: s') big = true -> subseq_b eq s' big = true).
+Proof.
+  induction big as [|z b' [IHs IHt]].
+  - split.
+    + intros small y H. destruct small; [reflexivity | discriminate].
+    + intros x s' H. discriminate.
+  - assert (T : forall x s', subseq_b eq (x :: s') (z :: b') = true -> subseq_b eq s' (z :: b') = true).
+    { intros x s' H. simpl in H. destruct (eq x z); apply IHs; [exact H | eapply IHt; exact H]. }
+    split; [|exact T].
+    intros small y H. destruct small as [|x s']; [reflexivity|].
+    cbn [subseq_b]. destruct (eq x y); [eapply T; exact H | exact H].
+Qed.
+
+Lemma subseq_b_app {A} (eq : A -> A -> bool) (R : forall x, eq x x = true) pre small post :
+  subseq_b eq small (pre ++ small ++ post) = true.
+Proof.
+  induction pre as [|y r IH]; simpl.
+  - induction small as [|x s' IHs]; simpl; [reflexivity|]. rewrite R. exact IHs.
+  - apply (proj1 (subseq_b_skip_tail eq _)). exact IH.
+Qed.
+
+Theorem c06_spec_of_model cfg md certs rq sess now tnow addr relay rnd :
+  let c0 := {| c6_cfg := cfg; c6_md := md; c6_certs := certs; c6_rq := rq; c6_sess := sess; c6_now := now;
+               c6_tnow := tnow; c6_addr := addr; c6_relay := relay; c6_rnd := rnd; c6_obs := O6Err |} in
+  c06_spec {| c6_cfg := cfg; c6_md := md; c6_certs := certs; c6_rq := rq; c6_sess := sess; c6_now := now;
+              c6_tnow := tnow; c6_addr := addr; c6_relay := relay; c6_rnd := rnd;
+              c6_obs := formobs_of (c06_model c0) |} = true.
+Proof.
+  cbv zeta. unfold c06_spec, c06_model, c06_route, c06_request.
+  cbn [c6_cfg c6_md c6_certs c6_rq c6_sess c6_now c6_tnow c6_addr c6_relay c6_rnd c6_obs].
+  set (route := match rq with Some r => get_acs_endpoint md r | None => idp_initiated_route md end).
+  set (req := match rq with Some r => r | None => empty_request end).
+  destruct route as [[[[di ei] d] e]|]; [|reflexivity].
+  match goal with |- context [respond ?c ?cp ?r ?q ?ss ?n ?t ?ad ?rl ?rn] =>
+    pose proof (respond_not_panic c cp r q ss n t ad rl rn) as Hnp;
+    destruct (respond c cp r q ss n t ad rl rn) as [[[action resp] rl']| |] eqn:E end;
+    cbn [formobs_of]; [| reflexivity | contradiction].
+  pose proof (respond_scoping _ _ _ _ _ _ _ _ _ _ _ _ _ E) as S.
+  pose proof (respond_times _ _ _ _ _ _ _ _ _ _ _ _ _ E) as T.
+  pose proof (respond_attrs_from_session _ _ _ _ _ _ _ _ _ _ _ _ _ E) as A.
+  pose proof (respond_both_signed _ _ _ _ _ _ _ _ _ _ _ _ _ E) as B.
+  cbv zeta in S, T, A. cbn [mk_routing rt_ep rt_md] in S.
+  destruct S as (S1 & S2 & S3 & S4 & S5 & S6 & S7 & S8 & S9 & S10 & S11 & S12 & S13).
+  destruct T as (T1 & T2 & T3 & T4 & T5 & T6).
+  destruct A as (A1 & A2 & A3 & A4 & (pre & post & A5) & A6).
+  apply andb_true_iff; split; [apply andb_true_iff; split; [apply andb_true_iff; split|]|].
+  - unfold scoping_b. rewrite S1, S2, S3, S4, S5, S7, S8, S9, S10, S11, S12, S13.
+    rewrite !seqb_refl. simpl. rewrite seqb_refl. reflexivity.
+  - unfold times_b. rewrite T4, T5, T6, !Z.eqb_refl.
+    destruct (now - max_clock_skew cfg <? rq_issue req) eqn:El.
+    + destruct T2 as [-> ->]; [lia|]. rewrite !Z.eqb_refl. simpl.
+      rewrite andb_true_r. apply Z.leb_le. lia.
+    + destruct T3 as [-> ->]; [lia|]. rewrite !Z.eqb_refl. simpl.
+      rewrite andb_true_r. apply Z.leb_le. lia.
+  - unfold attrs_b. rewrite A1, A2, A3, !seqb_refl, Z.eqb_refl. simpl.
+    apply andb_true_iff; split; [apply andb_true_iff; split|].
+    + apply forallb_forall. intros a Ha. apply forallb_forall. intros v Hv.
+      apply mem_str_In. eapply A4; eauto.
+    + rewrite A5. apply subseq_b_app. exact attribute_eqb_refl.
+    + unfold group_attr_ok. destruct (ss_groups sess) as [|g0 gr] eqn:Eg; [reflexivity|].
+      apply existsb_exists. eexists. split; [apply A6; discriminate|].
+      cbn [uri_attr at_name at_values]. rewrite seqb_refl, (list_eqb_refl _ attrvalue_eqb_refl). reflexivity.
+  - unfold signed_b. destruct (inner_assertion resp) as [a sa].
+    destruct B as (B1 & B2 & B3 & B4 & B5 & B6 & B7 & B8 & B9 & _).
+    rewrite B1, B2, B3, B4, B5, B6, B7, B8.
+    rewrite !Z.eqb_refl, !seqb_refl, respbody_eqb_refl, assertion_eqb_refl.
+    apply mem_str_In in B9. rewrite B9. reflexivity.
+Qed.
+
+(* ---------- non-vacuity: concrete accepted instances ---------- *)
+Definition ex_cfg : idpcfg :=
+  {| sso_url := "https://idp.example.com/sso"; idp_entity := "https://idp.example.com/metadata";
+     max_issue_delay := 90000000000; max_clock_skew := 180000000000; sig_method := ""; idp_key := 1;
+     idp_signer := Some 2 |}.
+Definition ex_md (kd : list keydesc) : spmeta :=
+  {| md_entity := "https://sp.example.com/metadata";
+     descriptors := [ {| acs := [ {| ep_binding := redirect_binding; ep_location := "https://sp.example.com/r"; ep_index := 0; ep_default := None |};
+                                  {| ep_binding := post_binding; ep_location := "https://sp.example.com/acs"; ep_index := 1; ep_default := Some true |} ];
+                         kds := kd; attr_services := [] |} ] |}.
+Definition ex_reg (kd : list keydesc) : registry :=
+  reg_of_list [("https://sp.example.com/metadata", Found (ex_md kd))].
+Definition ex_rq : authnreq :=
+  {| rq_id := "id-1"; rq_version := "2.0"; rq_issue := 1000000000000; rq_destination := "https://idp.example.com/sso";
+     rq_issuer := Some "https://sp.example.com/metadata"; rq_acs_url := "https://attacker.example.net/"; rq_acs_index := "1" |}.
+Definition ex_sess : session :=
+  {| ss_create := 5; ss_index := "i"; ss_nameid := "alice"; ss_nameid_format := ""; ss_subject_id := "";
+     ss_groups := ["staff"; "admin"]; ss_user_name := "alice"; ss_email := "a@example.com"; ss_common_name := "";
+     ss_surname := ""; ss_given_name := ""; ss_scoped_aff := ""; ss_eppn := "";
+     ss_custom := [ {| at_friendly := ""; at_name := "role"; at_format := ""; at_values := [xs_val "x"] |} ] |}.
+Definition ex_rnd : rands :=
+  {| rnd_saml := "0123456789012345678901234567890123456789"; rnd_enc := srepeat "k" 84; rnd_wrapn := 20%nat |}.
+
+(* index "1" wins although the request also names a URL that is not registered *)
+Example ex_validate_accepts :
+  vobs_of (validate ex_cfg (ex_reg []) 1000000000000 ex_rq) = VOk 0 1.
+Proof. vm_compute. reflexivity. Qed.
+
+Example ex_respond_plain :
+  match validate ex_cfg (ex_reg []) 1000000000000 ex_rq with
+  | Ok rt => match respond ex_cfg (cp_of_list []) rt ex_rq ex_sess 1000000000000 1000000000000 "192.0.2.1:1" "relay" ex_rnd with
+             | Ok (action, resp, rl) =>
+                 seqb action "https://sp.example.com/acs"
+                 && match rs_assertion (rs_body resp) with APlain _ _ => true | _ => false end
+             | _ => false
+             end
+  | _ => false
+  end = true.
+Proof. vm_compute. reflexivity. Qed.
+
+Example ex_respond_encrypted :
+  let kd := [ {| kd_use := "encryption"; kd_certs := ["CERT"] |} ] in
+  match validate ex_cfg (ex_reg kd) 1000000000000 ex_rq with
+  | Ok rt => match respond ex_cfg (cp_of_list [("CERT", CertRsaKey 3)]) rt ex_rq ex_sess 1000000000000 1000000000000 "" "" ex_rnd with
+             | Ok (_, resp, _) => match rs_assertion (rs_body resp) with AEnc e => en_recipient e =? 3 | _ => false end
+             | _ => false
+             end
+  | _ => false
+  end = true.
+Proof. vm_compute. reflexivity. Qed.
